@@ -328,8 +328,16 @@ class SInt:
     def __index__(s): return ENG.concretize(s.z)
     def __hash__(s): return hash(ENG.concretize(s.z))
     def __float__(s): return float(ENG.concretize(s.z))
-    def __str__(s): return str(ENG.concretize(s.z))
-    def __format__(s, spec): return format(ENG.concretize(s.z), spec)
+    def __str__(s):
+        # harnesses whose code under test only formats numbers into messages set eng.opaque_str (listed as a stub)
+        if getattr(ENG, "opaque_str", False):
+            return "<sym>"
+        return str(ENG.concretize(s.z))
+
+    def __format__(s, spec):
+        if getattr(ENG, "opaque_str", False):
+            return "<sym>"
+        return format(ENG.concretize(s.z), spec)
     def __repr__(s): return f"SInt({z3.simplify(s.z)})"
     def bit_length(s): return ENG.concretize(s.z).bit_length()
 
